@@ -128,6 +128,7 @@ func init() {
 
 type optRun struct {
 	res    solver.Result
+	live   []solver.Result // the delivered values themselves (models not copied)
 	stream []solver.Result
 	closed bool
 }
@@ -140,7 +141,10 @@ func runOptimal(s solver.Interface, capacity int, delays []int) optRun {
 		var r optRun
 		i := 0
 		for x := range ch {
-			r.stream = append(r.stream, x)
+			cp := x // keep what was delivered at the time it was delivered: a consumer owns a received result
+			cp.Model = append([]bool(nil), x.Model...)
+			r.stream = append(r.stream, cp)
+			r.live = append(r.live, x)
 			if i < len(delays) && delays[i] > 0 {
 				time.Sleep(time.Duration(delays[i]) * time.Microsecond)
 			}
@@ -273,6 +277,12 @@ func checkStream(o *Oracle, oc *Outcome, entry string, r optRun, n int, sem []Li
 	if len(r.stream) == 0 {
 		oc.Fail("spec", "stream-last-is-result", entry, "no result was sent on the channel")
 		return
+	}
+	for i := range r.live { // a delivered model must not change after it was delivered
+		if fmt.Sprint(r.live[i].Model) != fmt.Sprint(r.stream[i].Model) {
+			oc.Fail("spec", "stream-valid", entry, "the model of streamed result %d changed after delivery: %v became %v", i, r.stream[i].Model, r.live[i].Model)
+			break
+		}
 	}
 	last := r.stream[len(r.stream)-1]
 	if last.Status != r.res.Status || last.Weight != r.res.Weight || fmt.Sprint(last.Model) != fmt.Sprint(r.res.Model) {
